@@ -306,5 +306,12 @@ def rule_walkers(F, rep, rid, names, floor, what):
             why.append('a `%s` at line %s can be taken before the descent' % (exits[0]['k'].lower(), exits[0].get('l')))
         rep.check(not why, rid, '%s|descends into every child' % g.short.split('::')[-1], g.where(loop), '%s: %s' % (g.short, '; '.join(why)), 'unconditional descent')
     missing = set(names) - seen
-    if n < floor or missing:
+    for nm in sorted(missing):
+        still = [g for g in F.funcs.values() if g.name == nm and '/src/' in g.file]
+        if still:
+            # the function is there but no longer walks the children at all
+            missing.discard(nm)
+            n += 1
+            rep.fail(rid, '%s|descends into every child' % nm, still[0].where(), '%s no longer calls itself for the child components: only the first level of the component tree is visited' % still[0].short)
+    if missing:
         raise AnalysisBroken('%s: tree walkers %s not found (found %d)' % (rid, sorted(missing), n))
